@@ -98,7 +98,6 @@ impl Prop for C17 {
         let case = gen_system(&mut t, &cfg);
         let ctx = &case.ctx;
         let sys = &case.sys;
-        rec.eval();
         let text = show_system(ctx, sys);
         let mut rng = SplitMix(hash_bytes(tape));
         let sim = RefSim::new(ctx, sys);
@@ -235,6 +234,7 @@ impl Prop for C17 {
                         }
                     }
                 }
+                rec.eval();
                 rec.label(&format!("variant:{}", vname));
                 let strict = !cone.is_empty() && cone.len() < all_syms.len();
                 let excluded_used = all_syms.iter().any(|s| !set.contains(s) && used_somewhere.contains(s));
